@@ -148,17 +148,30 @@ def nested_codes(obj, seen=None):
     return seen
 
 
+def _unwrapped(f):
+    """the function and everything it wraps (contextmanager, lru_cache, functools.wraps ...)"""
+    out = []
+    while f is not None and f not in out:
+        out.append(f)
+        f = getattr(f, "__wrapped__", None)
+    return out
+
+
 def module_codes(mod, seen=None):
     seen = seen if seen is not None else set()
+    fname = getattr(mod, "__file__", None)
+
+    def take(f):
+        for g in _unwrapped(getattr(f, "__func__", f)):
+            code = getattr(g, "__code__", None)
+            if code is not None and (fname is None or code.co_filename == fname):
+                nested_codes(code, seen)
     for v in list(vars(mod).values()):
-        if callable(v) and getattr(v, "__module__", None) == mod.__name__:
-            if hasattr(v, "__code__"):
-                nested_codes(v, seen)
-            elif isinstance(v, type):
-                for m in vars(v).values():
-                    f = getattr(m, "__func__", m)
-                    if hasattr(f, "__code__"):
-                        nested_codes(f, seen)
+        if isinstance(v, type) and getattr(v, "__module__", None) == mod.__name__:
+            for m in vars(v).values():
+                take(m)
+        elif callable(v):
+            take(v)
     return seen
 
 
